@@ -14,6 +14,13 @@ Init == \/ sig \in Sigs /\ call \in Calls /\ done = FALSE /\ pv = <<>>
 Next == ~done /\ done' = TRUE /\ UNCHANGED <<sig, call, pv>>
 InvExactlyDeclared == done /\ pv = <<>> => ExactlyDeclared(sig, call)
 InvNothingLost == done /\ pv = <<>> => NothingLost(sig, call)
+\* the type table, emitted once: (declared type | default kind) x value kind -> accepted?
+DefKinds == {"str", "int", "float", "bool", "arr", "map"}
+EmitTypes == (done /\ pv = <<>> /\ sig = [ps |-> <<P("p", "", "none")>>, rest |-> FALSE] /\ \A a \in ArgNames : call[a] = "-") =>
+   PrintT(<<"TYPES", ToJson([declared |-> [ty \in AllTypes |-> [k \in AllKinds |-> TypeAccepts(ty, k)]],
+                             inferred |-> [dk \in DefKinds |-> [k \in AllKinds |-> TypeAccepts(InferredFrom(dk), k)]],
+                             \* a declared type wins over what the default would imply (declared x default kind x value kind)
+                             both |-> [ty \in {"number", "float", "integer"} |-> [dk \in {"int", "float"} |-> [k \in AllKinds |-> TypeAccepts(ty, k)]]]])>>)
 Emit == done => IF pv = <<>> THEN PrintT(<<"VEC", ToJson([sig |-> sig, call |-> call, b |-> Bind(sig, call)])>>)
                 ELSE PrintT(<<"PRIO", ToJson([v |-> pv, o |-> PrioOutcome(pv)])>>)
 =============================================================================
